@@ -39,7 +39,9 @@ fn layers(id: &str) -> (&'static str, Vec<Layer>) {
         ]),
         "C04" => ("c04", vec![
             Layer { tool: Miri, kind: "race", extra: &[("scen", "2")], quick: 8, thorough: 128 },
+            Layer { tool: Miri, kind: "raw", extra: &[("scen", "3")], quick: 6, thorough: 64 },
             Layer { tool: Tsan, kind: "race", extra: &[("scen", "100")], quick: 0, thorough: 200 },
+            Layer { tool: Tsan, kind: "raw", extra: &[("scen", "200")], quick: 0, thorough: 200 },
         ]),
         "C05" => ("c05", vec![
             Layer { tool: Miri, kind: "race", extra: &[("scen", "2")], quick: 6, thorough: 96 },
